@@ -86,7 +86,7 @@ class Cfg:
         self.place = kw.get('place', 'cyclic'); self.pseed = kw.get('pseed', 1); self.ts = kw.get('ts', 1)
         self.again = kw.get('again', (0, 1)); self.sleep = kw.get('sleep', (0, 200)); self.seed = kw.get('seed', 1)
         self.mca = dict(kw.get('mca', {})); self.scenario = kw.get('scenario', 'together'); self.yield_ = kw.get('yield_', None)
-        self.flavour = kw.get('flavour', 'asan'); self.env = dict(kw.get('env', {})); self.table = kw.get('table'); self.events = kw.get('events', 0)
+        self.flavour = kw.get('flavour', 'asan'); self.env = dict(kw.get('env', {})); self.table = kw.get('table'); self.events = kw.get('events', 0); self.vps = kw.get('vps', 1)
         self.mb = kw.get('mb', 0); self.mpimt = kw.get('mpimt', 0)      # region mode (typed programs, C18): tile = mb x mb, ts must be mb*mb
 
     def ident(self):
@@ -101,6 +101,7 @@ class Cfg:
         if self.mca: s += ' mca=' + ','.join('%s=%s' % kv for kv in sorted(self.mca.items()))
         if self.yield_: s += ' yield=' + self.yield_
         if self.scenario != 'together': s += ' scenario=' + self.scenario
+        if getattr(self, 'vps', 1) > 1: s += ' vps=%d' % self.vps
         if self.mb: s += ' mb=%d' % self.mb
         if self.mpimt: s += ' mpi-thread-multiple'
         return s
@@ -117,6 +118,10 @@ def run_program(ctx, exe, nk, cfg, outdir, tag, timeout=240, stall_s=45):
     if cfg.mb or cfg.mpimt:
         i = cmd.index('--'); cmd[i:i] = ['--mb', str(cfg.mb), '--mpimt', str(cfg.mpimt), '--hblate', '1']
     env = dict(cfg.env)
+    if getattr(cfg, 'vps', 1) > 1:
+        # several virtual processes: hwloc vpmap (one vp per package) on a synthetic multi-package topology (rr:/file: maps crash)
+        per = max(1, (cfg.cores + cfg.vps - 1) // cfg.vps)
+        env['HWLOC_SYNTHETIC'] = 'package:%d core:%d pu:1' % (cfg.vps, per); env['PARSEC_MCA_runtime_vpmap'] = 'hwloc'
     if cfg.yield_: env['PARSEC_VERIF_YIELD'] = cfg.yield_
     r = ctx.run(cmd, env=env, timeout=timeout, stall_s=stall_s, mpi=cfg.ranks if cfg.ranks > 1 else 0, tag=tag)
     r.table = table; r.outdir = outdir; r.nranks = cfg.ranks
